@@ -130,6 +130,12 @@ def main():
         c = os.path.join(vlib.scratch(), "demo_m_%s.cfg" % fl)
         open(c, "w").write(prop_c18.cfg_text("Spec", "{1, 2}", "{3, 40, 1000}", 2, flags=flags))
         flip("Members %s=FALSE (as found)" % fl, "MCMembers.tla", c, None)
+    c = os.path.join(vlib.scratch(), "demo_sl.cfg")
+    open(c, "w").write("SPECIFICATION Spec\nCONSTANTS\n MaxChanges = 3\n GuardedDrop = TRUE\n RestoreMarksRunning = FALSE\nINVARIANTS C13_CompletedIsCurrent C13_ServedIsCurrent\nPROPERTIES C13_RestoreOnlyCompleted C13_UncleanRemoved\n")
+    flip("SubLifecycle RestoreMarksRunning=FALSE", "SubLifecycle.tla", c, None)
+    c = os.path.join(vlib.scratch(), "demo_ma.cfg")
+    open(c, "w").write('SPECIFICATION Spec\nCONSTANTS\n Ids = {1, 2}\n Vals = {1, 2}\n Shape = "plain"\n MaxTx = 3\n NullSafe = FALSE\nINVARIANTS C11_View C11_Keys\n')
+    flip("Matcher NullSafe=FALSE", "Matcher.tla", c, ["C11_View"])
     c = prop_c02.write_cfg("demo_bk", prop_c02.CONFIGS_QUICK["B"], "Spec", fullstart=1)
     flip("Bookkeeping FullStart=1 (as found)", "MCBookkeeping.tla", c, None)
     res["wall_s"] = round(time.time() - t0, 1)
